@@ -256,6 +256,13 @@ func (session *ServerCommandSession) handleOptions(requestCtx nazahttp.HttpReqMs
 func (session *ServerCommandSession) handleAnnounce(requestCtx nazahttp.HttpReqMsgCtx) error {
 	Log.Infof("[%s] < R ANNOUNCE", session.uniqueKey)
 
+	// 一个信令连接只对应一个pub或sub session。
+	// 重复的ANNOUNCE/DESCRIBE会覆盖之前的session指针，导致之前的session在上层永远不会被删除
+	if session.pubSession != nil || session.subSession != nil {
+		Log.Errorf("[%s] ANNOUNCE but session already exist.", session.uniqueKey)
+		return nazaerrors.Wrap(base.ErrRtsp)
+	}
+
 	urlCtx, err := base.ParseRtspUrl(requestCtx.Uri)
 	if err != nil {
 		Log.Errorf("[%s] parse presentation failed. uri=%s", session.uniqueKey, requestCtx.Uri)
@@ -302,6 +309,12 @@ func (session *ServerCommandSession) handleDescribe(requestCtx nazahttp.HttpReqM
 	if err != nil {
 		Log.Errorf("[%s] parse presentation failed. uri=%s", session.uniqueKey, requestCtx.Uri)
 		return err
+	}
+
+	// 一个信令连接只对应一个pub或sub session，见handleAnnounce中的说明
+	if session.pubSession != nil || session.subSession != nil {
+		Log.Errorf("[%s] DESCRIBE but session already exist.", session.uniqueKey)
+		return nazaerrors.Wrap(base.ErrRtsp)
 	}
 
 	session.describeSeq = requestCtx.Headers.Get(HeaderCSeq)
